@@ -41,6 +41,13 @@
    relays and only on them; Obs decides).  The c04 generator draws all three values, the c18 generator
    2^64-5 on badge relays.
 
+   Address spelling: bech32 accepts an all-upper-case spelling of an address.  The store keys (unique session,
+   epoch CU counters, badge usage, tracked CU) are built from the provider STRING of the relay, while a session's
+   identity is by account.  pu = the transaction's Creator is spelled in upper case (no effect, see RelayPayU);
+   pfu = the relay's signed Provider field is spelled in upper case: the spec states the repaired behaviour (such a
+   relay is refused, fixes/F2d_provider_spelling.patch); the code as found treats it as another provider, so the same
+   session can be paid once per spelling and the per-provider epoch allowance doubles (F2d; Obs decides, Conf drifts).
+
    F2Fixed selects the transcription of EnforceClientCUsUsageInEpoch: FALSE = the code as found
    (`return effectivePolicyTotalCu - project.UsedCu` in the total-limit branch), TRUE = the repaired
    function (fixes/F2_cu_underflow.patch).  checks/C04.py picks the variant the real code conforms to. *)
@@ -160,6 +167,7 @@ Hard(S) == [S EXCEPT !.status = "hard"]
 ProcessRelay(S, p, r, bm) ==
   IF S.status = "hard" THEN S
   ELSE IF r.pf # p THEN Hard(S)                                       \* creator and signed provider mismatch
+  ELSE IF r.pfu THEN Hard(S)                                          \* provider address not in canonical spelling (F2d, see below)
   ELSE IF ~r.lc THEN Rej(S)                                           \* wrong lava chain id
   ELSE IF r.e < 0 \/ ~BlockLe(r.e, r.o, cur, off) THEN Rej(S)          \* block in the future / negative
   ELSE IF CuGuard /\ TooBig(r.cu) THEN Rej(S)                          \* CU sum does not fit in int64 (F2c)
@@ -289,16 +297,18 @@ NextBlock ==
   /\ UNCHANGED <<cur, earliest, df, unique, pec, pcec, used, mleft, tracked>>
   /\ Quiet("block")
 
-Down(newdf) ==
+Down(newdf, ev) ==
   /\ off = 0
   /\ off' = 1 /\ bused' = BadgeGC(bused, cur, 1) /\ pcache' = {}
   /\ df' = newdf
   /\ UNCHANGED <<cur, earliest, unique, pec, pcec, used, mleft, tracked>>
-  /\ Quiet("down")
+  /\ Quiet(ev)
 
 \* the downtime factor of the finished epoch ends at d; a late block doubles the current epoch's allowance
 EpochDf(d) == Append([df EXCEPT ![cur + 1] = d], 1)
 DownDf == [df EXCEPT ![cur + 1] = 2]
+\* a very late block (several epoch durations): the CURRENT epoch gets a larger factor than finished epochs have
+BigDownDf == [df EXCEPT ![cur + 1] = 7]
 
 InitNoHist ==
         /\ cur = 0 /\ off = 0 /\ earliest = 0 /\ df = <<1>>
@@ -312,12 +322,13 @@ Init == InitNoHist /\ hist = <<>>
 -----------------------------------------------------------------------------
 \* relays explored: a valid relay with at most one mutated field
 Base(p, sg, e, ss, cu) ==
-  [sg |-> sg, pf |-> p, sp |-> "S1", e |-> e, o |-> 0, ss |-> ss, cu |-> cu, lc |-> TRUE,
+  [sg |-> sg, pf |-> p, pfu |-> FALSE, sp |-> "S1", e |-> e, o |-> 0, ss |-> ss, cu |-> cu, lc |-> TRUE,
    q |-> "none", tm |-> "none", b |-> NoBadge]
 BadgeFor(r, al) == [u |-> "b1", is |-> r.sg, e |-> r.e, o |-> r.o, al |-> al, lc |-> TRUE]
 MutAt(r, m, c, o, ea) ==
   CASE m = "none"       -> r
     [] m = "prov"       -> [r EXCEPT !.pf = OtherProvider(r.pf)]
+    [] m = "provupper"  -> [r EXCEPT !.pfu = TRUE]            \* the consumer signed the provider's address in upper case
     [] m = "specdis"    -> [r EXCEPT !.sp = "SD"]
     [] m = "specunk"    -> [r EXCEPT !.sp = "SX"]
     [] m = "specother"  -> [r EXCEPT !.sp = "S2"]
@@ -362,7 +373,7 @@ TxChoices(p) == {<<r>> : r \in RelayChoices(p, Muts)}
 Env == \/ \E p \in Creators : \E rs \in TxChoices(p) : RelayPay(p, rs)
        \/ \E d \in {1, 4} : NextEpoch(EpochDf(d))
        \/ NextBlock
-       \/ Down(DownDf)
+       \/ Down(DownDf, "down")
 Next == nops < MaxOps /\ nops' = nops + 1 /\ Env
 Spec == Init /\ [][Next]_vars
 
@@ -372,40 +383,46 @@ Spec == Init /\ [][Next]_vars
 Weighted(F) == UNION {{<<x, i>> : i \in 1..F[x]} : x \in DOMAIN F}
 Pick(F) == RandomElement(Weighted(F))[1]
 Uniform(S) == [x \in S |-> 1]
-GMuts == CASE Profile = "c03" -> ("none" :> 12 @@ "qzero" :> 1 @@ "badge" :> 2 @@ "badgeplain" :> 1 @@ "nonstart" :> 1 @@ "specdis" :> 1
+GMuts == CASE Profile = "c03" -> ("none" :> 12 @@ "provupper" :> 2 @@ "qzero" :> 1 @@ "badge" :> 2 @@ "badgeplain" :> 1 @@ "nonstart" :> 1 @@ "specdis" :> 1
                                   @@ "expired" :> 2 @@ "unknown" :> 1 @@ "future" :> 1)
            [] Profile = "c04" -> ("none" :> 8 @@ "qzero" :> 2 @@ "qone" :> 1 @@ "badge" :> 1)
            [] Profile = "c18" -> ("badge" :> 6 @@ "badgesmall" :> 6 @@ "badgehuge" :> 1 @@ "none" :> 2 @@ "badgeuser" :> 1 @@ "badgeepoch" :> 1 @@ "badgechain" :> 1
                                   @@ "badgeissuer" :> 1 @@ "badgeplain" :> 1 @@ "qzero" :> 1 @@ "expired" :> 1)
            [] OTHER -> [m \in Muts |-> IF m = "none" THEN Cardinality(Muts) ELSE 1]
-GCUs == CASE Profile = "c04" -> (10 :> 2 @@ 60 :> 7 @@ 100 :> 5 @@ 150 :> 7 @@ 1000 :> 2 @@ 1000000 :> 1 @@ 1000001 :> 1 @@ 1000002 :> 1)
+LateClaim == Profile = "c04" /\ cur >= 1 /\ df[cur + 1] >= 7     \* bias: claim relays of a finished epoch while the current one has more downtime
+GCUs == CASE LateClaim -> (60 :> 2 @@ 150 :> 3 @@ 1000 :> 6)
+          [] Profile = "c04" -> (10 :> 2 @@ 60 :> 7 @@ 100 :> 5 @@ 150 :> 7 @@ 1000 :> 2 @@ 1000000 :> 1 @@ 1000001 :> 1 @@ 1000002 :> 1)
           [] Profile = "c18" -> (10 :> 1 @@ 60 :> 2 @@ 100 :> 1 @@ 150 :> 1)
           [] OTHER -> Uniform(CUs)
-GSigners == CASE Profile = "c04" -> ("k1" :> 3 @@ "c1" :> 1)
+GSigners == CASE LateClaim -> ("k1" :> 1 @@ "c1" :> 3)
+              [] Profile = "c04" -> ("k1" :> 3 @@ "c1" :> 1)
               [] OTHER -> Uniform(Signers)
 GCreators == IF Profile = "c05" THEN Uniform(Creators) ELSE [p \in Creators |-> IF p = "p1" THEN 3 ELSE 1]
 \* (every random draw is passed as an operator ARGUMENT: TLC evaluates an argument once per call,
 \* whereas a LET-bound RandomElement would be re-drawn at every reference)
 GenRelay1(p, sg, e, ss, cu, m) == Mut(Base(p, sg, e, ss, cu), m)
-GenRelay(p) == GenRelay1(p, Pick(GSigners), Pick((cur :> 3) @@ Uniform({x \in {cur - 1, cur - 2} : x >= 0})),
+GenRelay(p) == GenRelay1(p, Pick(GSigners), Pick(IF LateClaim THEN (cur :> 1) @@ ((cur - 1) :> 4) ELSE (cur :> 3) @@ Uniform({x \in {cur - 1, cur - 2} : x >= 0})),
                          Pick(Uniform(Sessions)), Pick(GCUs), Pick(GMuts))
-\* dup = 1: second relay repeats the first, 2: same session re-signed with another CU, 3 (c18, c04): huge CuSum
+\* dup = 1: second relay repeats the first, 2: same session re-signed with another CU, 3 (c18, c04): huge CuSum, 4 (c03): other spelling of the provider
 GenPay2(p, pu, n, dup, r1, r2, r3, cu2) ==
   LET r2d == IF dup = 1 THEN r1 ELSE IF dup = 2 THEN [r1 EXCEPT !.cu = cu2]
              ELSE IF dup = 3 /\ (Profile = "c04" \/ (r1.b.u # "-" /\ r1.b.u = r1.sg))
                   THEN [r1 EXCEPT !.cu = Wrap, !.ss = (r1.ss % 3) + 1]      \* same signer/badge/epoch, another session, CuSum = 2^64-5
+             ELSE IF dup = 4 THEN [r1 EXCEPT !.pfu = TRUE]                      \* same proof re-signed for the other spelling of the provider
              ELSE r2
       rs == IF n = 1 THEN <<r1>> ELSE IF n = 2 THEN <<r1, r2d>> ELSE <<r1, r2d, r3>>
   IN RelayPayU(p, pu, rs)
-GenPay1(p) == GenPay2(p, Pick(FALSE :> 3 @@ TRUE :> 1), Pick(Uniform(1..MaxRelays)), Pick(0 :> 4 @@ 1 :> 2 @@ 2 :> 2 @@ 3 :> (IF Profile \in {"c18", "c04"} THEN 1 ELSE 0)), GenRelay(p), GenRelay(p), GenRelay(p), Pick(GCUs))
+GenPay1(p) == GenPay2(p, Pick(FALSE :> 3 @@ TRUE :> 1), Pick(Uniform(1..MaxRelays)), Pick(0 :> 4 @@ 1 :> 2 @@ 2 :> 2 @@ 3 :> (IF Profile \in {"c18", "c04"} THEN 1 ELSE 0) @@ 4 :> (IF Profile = "c03" THEN 1 ELSE 0)), GenRelay(p), GenRelay(p), GenRelay(p), Pick(GCUs))
 GenPay == GenPay1(Pick(GCreators))
 GenStep(k, d) ==
   \/ k = "pay" /\ GenPay
   \/ k = "epoch" /\ IF cur < MaxEpoch THEN NextEpoch(EpochDf(d)) ELSE GenPay
   \/ k = "block" /\ IF off = 0 THEN NextBlock ELSE GenPay
-  \/ k = "down" /\ IF off = 0 THEN Down(DownDf) ELSE GenPay
+  \/ k = "down" /\ IF off = 0 THEN Down(DownDf, "down") ELSE GenPay
+  \/ k = "bigdown" /\ IF off = 0 THEN Down(BigDownDf, "bigdown") ELSE GenPay
 GKinds == CASE Profile = "c03" -> ("pay" :> 6 @@ "epoch" :> 4 @@ "block" :> 1 @@ "down" :> 1)
             [] Profile = "c18" -> ("pay" :> 6 @@ "epoch" :> 3 @@ "block" :> 2 @@ "down" :> 1)
+            [] Profile = "c04" -> ("pay" :> 6 @@ "epoch" :> 2 @@ "block" :> 1 @@ "down" :> 1 @@ "bigdown" :> 1)
             [] OTHER -> ("pay" :> 6 @@ "epoch" :> 2 @@ "block" :> 1 @@ "down" :> 1)
 GenNext == /\ nops < MaxOps /\ nops' = nops + 1
            /\ GenStep(Pick(GKinds), Pick(1 :> 1 @@ 4 :> 1))
